@@ -15,6 +15,7 @@ import (
 	"sync"
 	"time"
 
+	"github.com/refraction-networking/conjure/internal/verifhook"
 	"github.com/refraction-networking/conjure/pkg/core"
 	"github.com/refraction-networking/conjure/pkg/phantoms"
 	"github.com/refraction-networking/conjure/pkg/station/geoip"
@@ -853,6 +854,7 @@ func (r *RegisteredDecoys) removeOldRegistrations(logger *log.Logger) (int, int)
 
 	expiredValid := 0
 	for _, idx := range expiredRegTimeoutIndices {
+		verifhook.Yield("sweep:before-remove")
 
 		stats := r.removeRegistration(idx)
 		if stats != nil {
